@@ -361,3 +361,7 @@ mod tests {
         ));
     }
 }
+
+#[cfg(all(test, feature = "pendulum_project_ntpd_rs_verif"))]
+#[path = "../../../../verif/harness/ntpd/daemon_sock_source.rs"]
+mod verif_daemon_sock_source;
